@@ -14,6 +14,8 @@ pub enum Ty {
     Vec(Box<Ty>),
     Map(Box<Ty>),
     Ref(String),
+    /// reference to a generic item with type arguments
+    Generic(String, Vec<Ty>),
     Unit,
 }
 
@@ -25,6 +27,7 @@ impl Ty {
             Ty::Vec(t) => format!("Vec<{}>", t.render()),
             Ty::Map(t) => format!("HashMap<String, {}>", t.render()),
             Ty::Ref(n) => n.clone(),
+            Ty::Generic(n, args) => format!("{n}<{}>", args.iter().map(|a| a.render()).collect::<Vec<_>>().join(", ")),
             Ty::Unit => "()".to_string(),
         }
     }
@@ -32,6 +35,12 @@ impl Ty {
         match self {
             Ty::Opt(t) | Ty::Vec(t) | Ty::Map(t) => t.refs(out),
             Ty::Ref(n) => out.push(n.clone()),
+            Ty::Generic(n, args) => {
+                out.push(n.clone());
+                for a in args {
+                    a.refs(out);
+                }
+            }
             _ => {}
         }
     }
@@ -39,12 +48,21 @@ impl Ty {
         match self {
             Ty::Opt(t) | Ty::Vec(t) | Ty::Map(t) => t.rename_ref(from, to),
             Ty::Ref(n) if n == from => *n = to.to_string(),
+            Ty::Generic(n, args) => {
+                if n == from {
+                    *n = to.to_string();
+                }
+                for a in args.iter_mut() {
+                    a.rename_ref(from, to);
+                }
+            }
             _ => {}
         }
     }
     fn has_unit(&self) -> bool {
         match self {
             Ty::Opt(t) | Ty::Vec(t) | Ty::Map(t) => t.has_unit(),
+            Ty::Generic(_, args) => args.iter().any(|a| a.has_unit()),
             Ty::Unit => true,
             _ => false,
         }
@@ -77,6 +95,12 @@ pub struct GItem {
     pub annotated: bool,
     pub const_val: u32,
     pub doc: bool,
+    /// generic parameters of a struct (`Page<T>`); fields may use them as `Ty::Prim`
+    pub generics: Vec<&'static str>,
+    /// extra attribute lines on the item (`#[typeshare(swift = "...")]`, ...)
+    pub item_attrs: Vec<String>,
+    /// extra attribute text per field (parallel to `fields`)
+    pub field_attrs: Vec<String>,
 }
 
 #[derive(Clone, Debug, PartialEq)]
@@ -102,7 +126,7 @@ const NAMES: [&str; 24] = [
     "Ledger", "Member", "Note", "Order", "Policy", "Quota", "Record", "Session", "Token", "Unit", "Vault", "Widget",
     "Zone",
 ];
-const CRATES: [&str; 5] = ["alpha", "beta-core", "gamma", "delta_x", "eps-i-lon"];
+const CRATES: [&str; 6] = ["alpha", "beta-core", "gamma", "delta_x", "eps-i-lon", "codable"];
 const FILES: [&str; 7] =
     ["src/lib.rs", "src/model.rs", "src/api/mod.rs", "src/api/types.rs", "src/api/v2/wire.rs", "src/util.rs", "src/z.rs"];
 const FIELD_NAMES: [&str; 10] =
@@ -118,6 +142,9 @@ pub struct GenOpts {
     pub unit_fields: bool,
     pub renames: bool,
     pub glob_named: bool,
+    pub generics: bool,
+    pub decorators: bool,
+    pub specials: bool,
 }
 
 impl Default for GenOpts {
@@ -131,6 +158,9 @@ impl Default for GenOpts {
             unit_fields: true,
             renames: true,
             glob_named: true,
+            generics: true,
+            decorators: true,
+            specials: true,
         }
     }
 }
@@ -139,8 +169,25 @@ pub fn crate_name_of(dir: &str) -> String {
     dir.replace('-', "_")
 }
 
+thread_local! {
+    /// generic items available to the type generator: (name, number of parameters)
+    static GENERIC_ITEMS: std::cell::RefCell<Vec<(String, usize)>> = const { std::cell::RefCell::new(Vec::new()) };
+    static SPECIAL_PRIMS: std::cell::Cell<bool> = const { std::cell::Cell::new(false) };
+}
+
+const SPECIALS: [&str; 2] = ["Url", "Uuid"];
+
 fn gen_ty(r: &mut Rng, names: &[String], depth: u32, unit_ok: bool) -> Ty {
     let roll = r.below(100);
+    let generics: Vec<(String, usize)> = GENERIC_ITEMS.with(|g| g.borrow().clone());
+    if depth < 2 && !generics.is_empty() && r.chance(1, 6) {
+        let (n, k) = r.pick(&generics).clone();
+        let args = (0..k).map(|_| gen_ty(r, names, depth + 1, false)).collect();
+        return Ty::Generic(n, args);
+    }
+    if SPECIAL_PRIMS.with(|s| s.get()) && r.chance(1, 14) {
+        return Ty::Prim(*r.pick(&SPECIALS[..]));
+    }
     if depth < 2 && roll < 12 {
         return Ty::Opt(Box::new(gen_ty(r, names, depth + 1, false)));
     }
@@ -181,6 +228,9 @@ pub fn gen_world(r: &mut Rng, o: &GenOpts) -> World {
     r.shuffle(&mut pool);
     let mut items: Vec<GItem> = vec![];
     let mut names: Vec<String> = vec![];
+    GENERIC_ITEMS.with(|g| g.borrow_mut().clear());
+    SPECIAL_PRIMS.with(|s| s.set(o.specials && r.chance(1, 3)));
+    const GPARAMS: [&str; 6] = ["T", "U", "A", "B", "K", "V"];
     for i in 0..nitems {
         let crate_ix = r.below(crates.len() as u64) as usize;
         let file_ix = r.below(crates[crate_ix].files.len() as u64) as usize;
@@ -214,11 +264,52 @@ pub fn gen_world(r: &mut Rng, o: &GenOpts) -> World {
             _ => 0,
         };
         let mut fields = vec![];
+        let mut field_attrs = vec![];
         let mut fnames: Vec<&str> = FIELD_NAMES.to_vec();
         r.shuffle(&mut fnames);
+        // generic struct: 1-2 parameters, used by its fields
+        let mut generics: Vec<&'static str> = vec![];
+        if o.generics && kind == Kind::Struct && r.chance(1, 7) {
+            let k = r.range(1, 2) as usize;
+            let start = r.below(GPARAMS.len() as u64) as usize;
+            for j in 0..k {
+                generics.push(GPARAMS[(start + j) % GPARAMS.len()]);
+            }
+        }
         for fi in 0..nf {
             let unit_ok = o.unit_fields && kind == Kind::Struct;
             fields.push((fnames[fi].to_string(), gen_ty(r, &names, 0, unit_ok)));
+            let mut fa = String::new();
+            if o.decorators && matches!(kind, Kind::Struct) {
+                match r.below(24) {
+                    0 => fa.push_str("#[serde(default)] "),
+                    1 => fa.push_str(&format!("#[serde(rename = \"{}Renamed\")] ", fnames[fi])),
+                    2 => fa.push_str("#[typeshare(typescript(readonly))] "),
+                    3 => fa.push_str("#[typeshare(serialized_as = \"String\")] "),
+                    4 => fa.push_str("#[serde(skip)] "),
+                    5 => fa.push_str("#[typeshare(skip)] "),
+                    6 => fa.push_str("#[typeshare(typescript(type = \"unknown\"))] "),
+                    _ => {}
+                }
+            }
+            field_attrs.push(fa);
+        }
+        for (gi, g) in generics.iter().enumerate() {
+            let t = if gi % 2 == 0 { Ty::Vec(Box::new(Ty::Prim(g))) } else { Ty::Opt(Box::new(Ty::Prim(g))) };
+            fields.push((format!("g_{}", g.to_lowercase()), t));
+            field_attrs.push(String::new());
+        }
+        let mut item_attrs = vec![];
+        if o.decorators && matches!(kind, Kind::Struct | Kind::UnitEnum | Kind::AlgEnum) {
+            match r.below(16) {
+                0 => item_attrs.push("#[typeshare(swift = \"Equatable, Hashable\")]".to_string()),
+                1 => item_attrs.push("#[typeshare(kotlin = \"JvmInline\", swift = \"Sendable\")]".to_string()),
+                2 => item_attrs.push("#[typeshare(redacted)]".to_string()),
+                3 if !generics.is_empty() => {
+                    item_attrs.push(format!("#[typeshare(swiftGenericConstraints = \"{}: Equatable & Hashable\")]", generics[0]))
+                }
+                _ => {}
+            }
         }
         let mut variants = vec![];
         match kind {
@@ -262,9 +353,16 @@ pub fn gen_world(r: &mut Rng, o: &GenOpts) -> World {
             annotated: !r.chance(1, 12),
             const_val: r.below(1000) as u32,
             doc: r.chance(1, 3),
+            generics: generics.clone(),
+            item_attrs,
+            field_attrs,
         };
         if it.annotated && kind != Kind::Const {
-            names.push(name);
+            if generics.is_empty() {
+                names.push(name);
+            } else {
+                GENERIC_ITEMS.with(|g| g.borrow_mut().push((name, generics.len())));
+            }
         }
         items.push(it);
     }
@@ -278,7 +376,12 @@ pub fn render_item(it: &GItem) -> String {
     }
     if it.annotated {
         s.push_str("#[typeshare]\n");
+        for a in &it.item_attrs {
+            s.push_str(a);
+            s.push('\n');
+        }
     }
+    let gen = if it.generics.is_empty() { String::new() } else { format!("<{}>", it.generics.join(", ")) };
     match it.kind {
         Kind::Const => {
             s.push_str(&format!("pub const {}: u32 = {};\n", it.name, it.const_val));
@@ -308,11 +411,12 @@ pub fn render_item(it: &GItem) -> String {
                 s.push_str(&format!("#[serde({})]\n", sa.join(", ")));
             }
             if it.fields.is_empty() {
-                s.push_str(&format!("pub struct {} {{}}\n", it.name));
+                s.push_str(&format!("pub struct {}{gen} {{}}\n", it.name));
             } else {
-                s.push_str(&format!("pub struct {} {{\n", it.name));
-                for (n, t) in &it.fields {
-                    s.push_str(&format!("    pub {n}: {},\n", t.render()));
+                s.push_str(&format!("pub struct {}{gen} {{\n", it.name));
+                for (i, (n, t)) in it.fields.iter().enumerate() {
+                    let fa = it.field_attrs.get(i).map(|s| s.as_str()).unwrap_or("");
+                    s.push_str(&format!("    {fa}pub {n}: {},\n", t.render()));
                 }
                 s.push_str("}\n");
             }
@@ -476,6 +580,9 @@ impl World {
                         annotated: true,
                         const_val: 0,
                         doc: false,
+                        generics: vec![],
+                        item_attrs: vec![],
+                        field_attrs: vec![String::new(), String::new()],
                     });
                     return (w, format!("add {name}"));
                 }
@@ -531,9 +638,13 @@ impl World {
                     }
                     if let Some(p) = w.items[i].fields.iter().position(|f| f.1 == Ty::Unit) {
                         w.items[i].fields.remove(p);
+                        if p < w.items[i].field_attrs.len() {
+                            w.items[i].field_attrs.remove(p);
+                        }
                         { let msg = format!("drop unit field of {}", w.items[i].name); return (w, msg); }
                     } else {
                         w.items[i].fields.push(("nothing".to_string(), Ty::Unit));
+                        w.items[i].field_attrs.push(String::new());
                         { let msg = format!("add unit field to {}", w.items[i].name); return (w, msg); }
                     }
                 }
@@ -591,11 +702,63 @@ impl World {
 
 pub fn default_config(r: &mut Rng, lang: &str, omit_package: bool) -> String {
     let mut s = String::new();
+    let maps = r.chance(1, 2);
+    let mapping = |r: &mut Rng, target: &[&str]| -> String {
+        let mut m = String::new();
+        let mut keys: Vec<&str> = vec!["Url", "Uuid", "Instant"];
+        r.shuffle(&mut keys);
+        for k in keys.iter().take(r.range(1, 3) as usize) {
+            m.push_str(&format!("\"{k}\" = \"{}\"\n", r.pick(target)));
+        }
+        m
+    };
+    s.push_str("[go]\n");
     if !omit_package {
-        s.push_str("[go]\npackage = \"proto\"\n\n[scala]\npackage = \"com.example.types\"\nmodule_name = \"types\"\n\n[kotlin]\npackage = \"com.example.types\"\nmodule_name = \"types\"\n\n");
+        s.push_str("package = \"proto\"\n");
     }
+    if r.chance(1, 3) {
+        s.push_str("uppercase_acronyms = [\"id\", \"url\"]\n");
+    }
+    if maps {
+        s.push_str(&format!("[go.type_mappings]\n{}", mapping(r, &["string", "time.Time"])));
+    }
+    s.push_str("\n[scala]\n");
+    if !omit_package {
+        s.push_str("package = \"com.example.types\"\nmodule_name = \"types\"\n");
+    }
+    if maps {
+        s.push_str(&format!("[scala.type_mappings]\n{}", mapping(r, &["String", "java.time.Instant"])));
+    }
+    s.push_str("\n[kotlin]\n");
+    if !omit_package {
+        s.push_str("package = \"com.example.types\"\nmodule_name = \"types\"\n");
+    }
+    if maps {
+        s.push_str(&format!("[kotlin.type_mappings]\n{}", mapping(r, &["String", "java.time.Instant"])));
+    }
+    s.push_str("\n[swift]\n");
     if lang == "swift" && r.chance(1, 3) {
-        s.push_str("[swift]\nprefix = \"TS\"\n\n");
+        s.push_str("prefix = \"TS\"\n");
+    }
+    if r.chance(1, 4) {
+        s.push_str("default_decorators = [\"Sendable\", \"Identifiable\"]\n");
+    }
+    if r.chance(1, 4) {
+        s.push_str("default_generic_constraints = [\"Sendable\", \"Equatable\"]\n");
+    }
+    if r.chance(1, 4) {
+        s.push_str("codablevoid_constraints = [\"Equatable\", \"Hashable\"]\n");
+    }
+    if maps {
+        s.push_str(&format!("[swift.type_mappings]\n{}", mapping(r, &["String", "Date"])));
+    }
+    s.push_str("\n[typescript]\n");
+    if maps {
+        s.push_str(&format!("[typescript.type_mappings]\n{}", mapping(r, &["string", "Date"])));
+    }
+    s.push_str("\n[python]\n");
+    if maps {
+        s.push_str(&format!("[python.type_mappings]\n{}", mapping(r, &["str", "datetime"])));
     }
     s
 }
@@ -612,6 +775,15 @@ pub struct Edge {
     pub raw_hex: &'static str,
     /// whether a correct tool must reject this input (true) or may accept it (false = either is fine)
     pub must_fail: bool,
+}
+
+/// the fixed catalogue: `EDGES` plus `edges_extra::EXTRA`
+pub fn all_edges() -> Vec<Edge> {
+    let mut v: Vec<Edge> = EDGES.iter().map(|e| Edge { id: e.id, chunk: e.chunk, kind: e.kind.clone(), raw_hex: e.raw_hex, must_fail: e.must_fail }).collect();
+    for (id, chunk) in super::edges_extra::EXTRA {
+        v.push(Edge { id, chunk, kind: FileKind::Text, raw_hex: "", must_fail: false });
+    }
+    v
 }
 
 pub const EDGES: &[Edge] = &[
